@@ -48,6 +48,12 @@ def projects(draw: Any, cycles: bool = False, star_consumers: bool = False) -> D
             form = draw(st.sampled_from(['plain', 'plain', 'renamed', 'star', 'absolute']))
             exports.append({'obj': d['name'], 'from': m, 'via': draw(st.sampled_from(['pkg', 'pkg', 'api'])), 'form': form,
                             'as': ('Pub' + d['name']) if form == 'renamed' else d['name'], 'alltype': draw(st.sampled_from(['list', 'tuple']))})
+            if form == 'renamed' and draw(st.booleans()):
+                # the defining module has an unrelated object that is called like the exported name: it stays where it is
+                exports[-1]['clash_id'] = new_id()
+    for e in exports:
+        if e.get('clash_id') and any(x['form'] == 'star' and x['from'] == e['from'] for x in exports):
+            del e['clash_id']  # a star import of the same module would bind the name too: which binding is exported depends on line order
     # a star import exports every name of that module that is listed: keep one via per (from, star)
     consumers = []
     cnames = draw(st.sampled_from([['c1'], ['c1', 'c2'], ['a_first', 'c2'], ['c1', 'zlast']]))
@@ -55,7 +61,7 @@ def projects(draw: Any, cycles: bool = False, star_consumers: bool = False) -> D
         uses = []
         for _ in range(draw(st.sampled_from([1, 1, 1, 2, 3, 4]))):
             m, d = draw(st.sampled_from(all_defs))
-            how = draw(st.sampled_from(['from-impl', 'from-exporter', 'both', 'modalias', 'pkgalias', 'pkgalias', 'modalias']))
+            how = draw(st.sampled_from(['from-impl', 'from-exporter', 'both', 'modalias', 'pkgalias', 'pkgalias', 'modalias', 'dotted', 'dotted']))
             as_ = draw(st.sampled_from(['base', 'base', 'base', 'ann', 'xref-old', 'xref-new', 'name'] if d['kind'] == 'class' else ['ann', 'xref-old', 'xref-new', 'name']))
             uses.append({'obj': d['name'], 'from': m, 'how': how, 'as': as_, 'rebind': bool(as_ == 'base' and d['members'] and draw(st.integers(0, 3)) > 0)})
         consumers.append({'mod': cm, 'uses': uses})
@@ -106,6 +112,10 @@ def to_files(proj: Dict[str, Any]) -> Tuple[Dict[str, str], Dict[str, Any]]:
             else:
                 lines.append('def %s():' % d['name'])
                 lines.append('    """ID:%d"""' % d['id'])
+        for e in proj['exports']:
+            if e.get('clash_id') and e['from'] == im['mod']:
+                lines += ['class %s:' % e['as'], '    """ID:%d"""' % e['clash_id'], '    def cm(self):', '        """ID:%d.cm"""' % e['clash_id']]
+                defs['__clash__' + e['as']] = (im['mod'], {'name': e['as'], 'id': e['clash_id'], 'kind': 'class', 'bases': [], 'members': ['cm'], 'clash': True})
         files['p/%s.py' % im['mod']] = '\n'.join(lines) + '\n'
     pkg_lines = ['"""package p"""']
     api_lines = ['"""api module"""']
@@ -159,6 +169,9 @@ def to_files(proj: Dict[str, Any]) -> Tuple[Dict[str, str], Dict[str, Any]]:
             elif how == 'pkgalias':
                 lines.append('from p import %s as pm%d' % (frm, ui))
                 local = 'pm%d.%s' % (ui, obj)
+            elif how == 'dotted':
+                lines.append('import p.%s' % frm)
+                local = 'p.%s.%s' % (frm, obj)
             uname = '%s_u%d' % (cm['mod'], ui)
             if u['as'] == 'base':
                 body += ['class %s(%s):' % (uname, local), '    """consumer class"""']
@@ -189,7 +202,7 @@ def to_files(proj: Dict[str, Any]) -> Tuple[Dict[str, str], Dict[str, Any]]:
         d0 = first['defs'][0]
         files['q.py'] = 'from p.%s import %s\nQ = %s\n' % (first['mod'], d0['name'], d0['name'])
         checks.append({'type': 'name', 'obj': d0['name'], 'from': first['mod'], 'module': 'q', 'expr': d0['name'], 'how': 'from-impl'})
-    meta = {'defs': {n: {'mod': m, 'id': d['id'], 'kind': d['kind'], 'bases': d['bases'],
+    meta = {'defs': {n: {'mod': m, 'id': d['id'], 'kind': d['kind'], 'bases': d['bases'], 'want': ('p.%s.%s' % (m, d['name'])) if d.get('clash') else None,
                          'members': d['members'] + (['Inner', 'Inner.im', 'Inner.iv', 'Inner.Deep', 'Inner.Deep.dm'] if d.get('nested') else [])}
                      for n, (m, d) in defs.items()}, 'checks': checks}
     return files, meta
